@@ -343,6 +343,8 @@ impl<K: HKey> Store<K> {
         let mut ranges = vec![];
         let mut len = 0;
         let mut extra_keys = 0;
+        // the rest of the IndexReadGuard surface: every accessor must tell the same story as iter()
+        let mut gapi = json!({"on": false});
         if let Some(cas) = self.cas.as_ref() {
             let r = catch_unwind(AssertUnwindSafe(|| {
                 {
@@ -368,6 +370,43 @@ impl<K: HKey> Store<K> {
                     let st = g.stats();
                     stats = json!([st.cas.unique_blobs, st.cas.total_bytes]);
                     ixsz = st.index.serialized_size_bytes;
+                    if !lite {
+                        let mut has = vec![];
+                        let mut item = vec![];
+                        let mut req = vec![];
+                        for a in 1..=nk {
+                            let k = u.key(a);
+                            has.push(json!(g.contains_key(&k)));
+                            item.push(match g.get_item(&k) {
+                                Some(it) => json!([u.name_of_hash(it.blob_hash.as_bytes()), it.blob_size]),
+                                None => json!(["-", -1]),
+                            });
+                            req.push(match g.require_item(&k) {
+                                Ok(it) => json!(u.name_of_hash(it.blob_hash.as_bytes())),
+                                Err(_) => json!("-"),
+                            });
+                        }
+                        let snap: Vec<Value> = g
+                            .keys_snapshot()
+                            .iter()
+                            .map(|(k, it)| json!([u.abs_of_key(k), u.name_of_hash(it.blob_hash.as_bytes())]))
+                            .collect();
+                        let hasblob: Vec<Value> =
+                            CONTENT_NAMES.iter().map(|n| json!(g.contains_blob_hash(&u.hash_of(n)))).collect();
+                        // the other bound kinds of range(): excluded / unbounded ends, the full range
+                        let mut xr = vec![];
+                        for lo in 1..=nk {
+                            let a: Vec<usize> = g
+                                .range::<K, _>((Bound::Excluded(u.key(lo)), Bound::Unbounded))
+                                .map(|(k, _)| u.abs_of_key(k))
+                                .collect();
+                            let b: Vec<usize> = g.range::<K, _>(..u.key(lo)).map(|(k, _)| u.abs_of_key(k)).collect();
+                            xr.push(json!({"k": lo, "above": a, "below": b}));
+                        }
+                        let full: Vec<usize> = g.range::<K, _>(..).map(|(k, _)| u.abs_of_key(k)).collect();
+                        gapi = json!({"on": true, "has": has, "item": item, "req": req, "empty": g.is_empty(), "snap": snap,
+                                      "hasblob": hasblob, "xr": xr, "full": full});
+                    }
                     for lo in 1..=(if lite { 0 } else { nk }) {
                         for hi in lo..=nk {
                             let ks: Vec<usize> =
@@ -443,7 +482,7 @@ impl<K: HKey> Store<K> {
             "open": self.cas.is_some(), "idx": idx, "sizes": sizes, "iter": iter, "len": len, "xkeys": extra_keys,
             "refc": refc, "refx": refx, "stats": stats, "ixsz": ixsz,
             "get": get, "gsize": if lite { vec![] } else { gsize }, "rdr": if lite { vec![] } else { rdr },
-            "rng": rng, "ranges": ranges,
+            "rng": rng, "ranges": ranges, "gapi": gapi,
             "orph": orph,
             "disk": alpha::alpha(&self.root, &self.names, NK),
         })
